@@ -268,6 +268,46 @@ def _lazy_helper_consumed(prog, f: FunctionInfo, depth: int) -> bool:
     return True
 
 
+_LAZY_COMBINATORS = ("chain", "from_iterable", "islice", "accumulate", "starmap", "zip_longest", "product", "compress", "zip", "map", "filter", "enumerate", "takewhile", "dropwhile")
+
+
+def _param_consumed_eagerly(prog, f: FunctionInfo, call: ast.Call, arg: ast.AST) -> bool:
+    """the lazy value *arg* is handed to a helper of the repository (a module-level function or a method of the same class): true when that helper
+    consumes the corresponding parameter on the spot wherever it uses it (an eager builtin, a loop, a lazy combinator that is itself consumed eagerly)"""
+    callee = None
+    off = 0
+    if isinstance(call.func, ast.Name):
+        full = prog.resolve_name(f.module, call.func.id)
+        callee = prog.functions.get(full) if full else None
+    elif isinstance(call.func, ast.Attribute) and isinstance(call.func.value, ast.Name) and call.func.value.id == "self" and f.cls is not None:
+        callee = prog.lookup_method(f.cls, call.func.attr)
+        off = 1
+    if callee is None or not isinstance(callee.node, (ast.FunctionDef, ast.AsyncFunctionDef)):
+        return False
+    params = callee.params[off:]
+    pname = None
+    if arg in call.args:
+        i = call.args.index(arg)
+        pname = params[i] if i < len(params) else None
+    else:
+        pname = next((k.arg for k in call.keywords if k.value is arg), None)
+    if pname is None:
+        return False
+    uses = [u for u in walk_local(callee.node, include_nested=True) if isinstance(u, ast.Name) and u.id == pname and isinstance(u.ctx, ast.Load)]
+    if not uses:
+        return False
+    for u in uses:
+        p = parent(u)
+        if isinstance(p, ast.Call) and u in p.args and call_name(p) in EAGER:
+            continue
+        if isinstance(p, (ast.For, ast.comprehension)) and p.iter is u:
+            continue
+        if isinstance(p, ast.Call) and u in p.args and call_name(p) in _LAZY_COMBINATORS and _eager_context(p):
+            continue
+        return False
+    return True
+
+
 def rule_r2(ctx: Ctx) -> None:
     prog = ctx.prog
     n = 0
@@ -303,7 +343,8 @@ def rule_r2(ctx: Ctx) -> None:
                     uses = [u for u in walk_local(f.node, include_nested=True) if isinstance(u, ast.Name) and u.id == p.targets[0].id
                             and isinstance(u.ctx, ast.Load)]
                     eager_uses = [u for u in uses if isinstance(parent(u), ast.Call) and call_name(parent(u)) in EAGER and u in parent(u).args
-                                  or isinstance(parent(u), (ast.For, ast.comprehension)) and parent(u).iter is u]
+                                  or isinstance(parent(u), (ast.For, ast.comprehension)) and parent(u).iter is u
+                                  or isinstance(parent(u), ast.Starred)]          # f(*name): unpacked on the spot
                     if uses and len(eager_uses) == len(uses):
                         ok = True
                     else:
@@ -311,6 +352,8 @@ def rule_r2(ctx: Ctx) -> None:
                         sink = f"bound to '{p.targets[0].id}' and then used lazily in {where}"
                 if isinstance(p, ast.Return) and _lazy_helper_consumed(prog, f, 0):
                     ok = True      # a private helper that returns an iterator: every call site consumes it on the spot
+                if not ok and isinstance(p, ast.Call) and (g in p.args or any(k.value is g for k in p.keywords)) and _param_consumed_eagerly(prog, f, p, g):
+                    ok = True      # handed to a helper of the repository that consumes it on the spot
                 why = f"the lazily evaluated object '{norm(g)[:60]}' is {sink}: a generator (not the declared value) ends up in the program"
             ctx.ob("C01.R2", f, g, f"lazy value {norm(g)[:50]} is consumed eagerly", ok, why)
     ctx.floor("C01.R2", n, 2, "generator / lazy-iterator expressions in synthesis code")
@@ -625,6 +668,29 @@ def rule_r5(ctx: Ctx) -> None:
                         used_later.add(c.value.id)     # a helper that returns the arguments to the function that constructs the node
             names = {x.func.value.id for x in apps} & used_later
             if len(names) != 1:
+                # the arguments kept in a dict keyed by the field name (D[argn] = value ... apply_constructor(T, list(D.values()))): one entry per
+                # declared field when every path stores exactly once, under the loop's own field-name variable
+                keyvar = l.target.elts[0].id if isinstance(l.target, ast.Tuple) and l.target.elts and isinstance(l.target.elts[0], ast.Name) else None
+                dstores = [x for b_ in l.body for x in ast.walk(b_) if isinstance(x, ast.Assign) and len(x.targets) == 1 and isinstance(x.targets[0], ast.Subscript)
+                           and isinstance(x.targets[0].value, ast.Name) and isinstance(x.targets[0].slice, ast.Name) and x.targets[0].slice.id == keyvar]
+                dnames = {x.targets[0].value.id for x in dstores}
+                feeds = {d_ for d_ in dnames for s_ in after for c in ast.walk(s_)
+                         if isinstance(c, ast.Call) and call_name(c) == "apply_constructor" and any(
+                             isinstance(v_, ast.Call) and isinstance(v_.func, ast.Attribute) and v_.func.attr == "values" and isinstance(v_.func.value, ast.Name)
+                             and v_.func.value.id == d_ for a_ in c.args for v_ in ast.walk(a_))}
+                if keyvar is None or len(feeds) != 1:
+                    continue
+                dname = next(iter(feeds))
+                n += 1
+                bad = []
+                for pth in paths(l.body, unroll_loops=False):
+                    if pth[-1][1] in ("raise",):
+                        continue
+                    k = sum(1 for st in stmts_on(pth) for x in ast.walk(st) if x in dstores and x.targets[0].value.id == dname)
+                    if k != 1 or pth[-1][1] == "break":
+                        bad.append(k)
+                ctx.ob("C01.R5", fn, l, f"{fn.name}: one argument per declared field on every path", not bad,
+                       "" if not bad else f"a path through the field loop stores {bad[0]} values under the field's name: the node is built with the wrong number of fields")
                 continue
             n += 1
             argl_id = next(iter(names))
